@@ -21,6 +21,7 @@ use std::sync::{LazyLock, Mutex, OnceLock};
 use divan::__private as dp;
 use divan::__verif as v;
 
+mod mac;
 mod tables;
 
 // ---------------------------------------------------------------------------
@@ -126,6 +127,13 @@ struct Spec {
     profile: bool,
     benches: Vec<BenchSpec>,
     groups: Vec<GroupSpec>,
+    /// The registry is the macro-generated fixture of `mac.rs` (the tree in the case describes it);
+    /// nothing synthetic is registered.
+    mac: bool,
+    /// `Some(cfg)`: the explicit entry point for the action (`run_benches` / `test_benches` /
+    /// `list_benches`) is called on a `Divan` configured by `--bench` (b), `--test` (t),
+    /// `--list` (l) or no action flag (n); `None`: `main()` with the action's own flag.
+    entry: Option<char>,
     /// Bytes format set by `--bytes-format`, by `DIVAN_BYTES_FORMAT`, by the builder before
     /// `config_with_args()` and by the builder after it: `Some(true)` = binary.
     fmt: [Option<bool>; 4],
@@ -238,6 +246,14 @@ fn parse_case(case: &str) -> Spec {
         parse_node(&mut t, "", &mut spec, &mut line);
     }
     assert!(spec.benches.len() + spec.groups.len() <= tables::N, "too many entries");
+    if t.i < t.t.len() && t.t[t.i] == "M" {
+        t.next();
+        spec.mac = true;
+    }
+    if t.i < t.t.len() && t.t[t.i] == "E" {
+        t.next();
+        spec.entry = t.next().chars().next();
+    }
     // optional: `F <flag>:<env>:<builder before parse>:<builder after parse>`, each `-`, `d` or `b`
     if t.i < t.t.len() && t.t[t.i] == "F" {
         t.next();
@@ -299,6 +315,14 @@ fn run_entry(k: usize, arg: Option<usize>, bencher: divan::Bencher) {
             divan::black_box(Vec::<u8>::with_capacity(alloc));
         }
     });
+}
+
+/// Body of the macro-generated fixture benchmarks: behaves like the entry with this id in the case.
+pub fn fixture(id: u64, arg: Option<usize>, bencher: divan::Bencher) {
+    let Some(spec) = SPEC.get() else { return };
+    if let Some(k) = spec.benches.iter().position(|b| b.id == id) {
+        run_entry(k, arg, bencher)
+    }
 }
 
 pub fn plain<const K: usize>(bencher: divan::Bencher) {
@@ -488,7 +512,9 @@ fn child_main(case: &str) {
         SPEC.set(parse_case(case)).ok().unwrap();
         SPEC.get().unwrap()
     };
-    register(spec);
+    if !spec.mac {
+        register(spec);
+    }
     v::vclock_enable(FREQ, 0);
     v::set_precision_override(Some(1));
     v::set_overhead_override(Some([0; 4]));
@@ -504,7 +530,12 @@ fn child_main(case: &str) {
     if let Some(b) = spec.fmt[3] {
         d = d.bytes_format(bf(b));
     }
-    d.main();
+    match (spec.entry, spec.action.as_str()) {
+        (None, _) => d.main(),
+        (Some(_), "bench") => d.run_benches(),
+        (Some(_), "test") => d.test_benches(),
+        (Some(_), _) => d.list_benches(),
+    }
     PROFILE.store(false, Ordering::SeqCst);
     std::io::stdout().flush().unwrap();
     let runs = RUNS.lock().unwrap();
@@ -528,17 +559,37 @@ fn run_case(case: &str) -> String {
     let exe = std::env::current_exe().unwrap();
     let action = case.split(' ').next().unwrap_or("");
     let mut cmd = std::process::Command::new(exe);
-    match action {
-        "bench" => { cmd.args(["--bench", "--timer", "tsc", "--sample-size", "1"]); }
-        "test" => { cmd.args(["--test"]); }
-        "list" => { cmd.args(["--list"]); }
-        _ => return "crash bad-action".into(),
-    }
-    cmd.args(["--sort", "location"]);
     let spec = match std::panic::catch_unwind(|| parse_case(case)) {
         Ok(s) => s,
         Err(_) => return "crash bad-case".into(),
     };
+    // the configured action: the flag of the action itself, or what the `E` section says
+    let cfg = spec.entry.unwrap_or(match action {
+        "bench" => 'b',
+        "test" => 't',
+        "list" => 'l',
+        _ => return "crash bad-action".into(),
+    });
+    match cfg {
+        'b' => { cmd.arg("--bench"); }
+        't' => { cmd.arg("--test"); }
+        'l' => { cmd.arg("--list"); }
+        _ => {}
+    }
+    if action == "bench" {
+        cmd.args(["--timer", "tsc", "--sample-size", "1"]);
+    }
+    cmd.args(["--sort", "location"]);
+    // the macro-generated fixture is always linked in: synthetic cases filter it out
+    if !spec.mac {
+        if spec.exact {
+            for p in mac::LEAF_PATHS {
+                cmd.arg(format!("--skip={p}"));
+            }
+        } else {
+            cmd.arg("--skip=^hx_paint::mac::");
+        }
+    }
     let name = |b: bool| if b { "binary" } else { "decimal" };
     if let Some(b) = spec.fmt[0] {
         cmd.arg(format!("--bytes-format={}", name(b)));
